@@ -187,6 +187,44 @@ def run(ctx):
         key = "C16:readiness:%s" % re.sub(r"[^a-z0-9]+", "-", re.sub(r"\d+", "N", m["what"].lower())).strip("-")[:70]
         ctx.violation(key, "after %s (control connection %s, outage age %s ticks of 1 s, readiness timeout 2 s): %s %s" % (
             st["a"], st["ctrl"], st["since"], m["what"], m.get("got", "")), replay=m)
+    # the handshake every replaced connection goes through: rows of BackendHandshake.tla (backend personalities x
+    # configurations) replayed against the real ConnectCluster / control-connection reconnect / ConnectSession
+    hres = ctx.tlc_must_pass("BackendHandshakeMC", "BackendHandshakeMC.cfg", workers=4, timeout=600, name="backend-handshake")
+    hrows = list(dict.fromkeys(rows(hres.output, "BHS")))
+    if len(hrows) < 20000:
+        raise core.Inconclusive("TLC exported too few handshake rows (%d)" % len(hrows))
+    if not t:
+        parsed = [(json.loads(x), x) for x in hrows]
+        heal_ok = [x for r, x in parsed if r["out"] == "ok" and r["row"]["kind"] == "reconnect"]
+        pool_ok = [x for r, x in parsed if r["out"] == "ok" and r["row"]["kind"] == "pool"]
+        other = [x for r, x in parsed if r["out"] != "ok" or r["row"]["kind"] == "initial"]
+        hrows = heal_ok + rnd.sample(pool_ok, 300) + rnd.sample(other, 500)
+    hpath = ctx.path("handshake_rows.jsonl")
+    open(hpath, "w").write("\n".join(hrows) + "\n")
+    hout = ctx.path("handshake_result.json")
+    ctx.drv(["bhs", "-in", hpath, "-out", hout, "-workers", "12"], timeout=1800)
+    hr = json.load(open(hout))
+    beyond = []
+    for m in hr.get("mismatches") or []:
+        row = m["row"]
+        rr_ = row["row"]
+        desc = "%s connection, version %s asked of a backend speaking %s (refusing with '%s'), authentication '%s' %s credentials, REGISTER answered '%s'%s" % (
+            rr_["kind"], rr_["start"], rr_["supp"], rr_["wording"], rr_["auth"], "with" if rr_["creds"] else "without", rr_["reg"],
+            (", compression '%s', keyspace '%s'" % (rr_["comp"], rr_["ks"])) if rr_["kind"] == "pool" else "")
+        if row["out"] == "ok" and rr_["kind"] in ("reconnect", "pool") and m.get("outcome") != "ok":
+            # a connection that the specification says is (re-)established, and the code does not establish: C16's
+            # "the proxy replaces it".  (A different exchange that still ends with a usable connection is not C16's.)
+            key = "C16:handshake:%s-not-established:auth-%s" % (rr_["kind"], rr_["auth"])
+            ctx.violation(key, "%s: connection not established; %s: expected %s, got %s" % (desc, m["what"], m["want"], m["got"]), replay=m)
+        else:
+            beyond.append("%s: %s; expected %s, got %s" % (desc, m["what"], m["want"], m["got"]))
+    if beyond:
+        # deviations from BackendHandshake.tla outside what C16 states (start-up, or an exchange that must fail): on record
+        print("NOTE beyond-property: %d deviations from BackendHandshake.tla, e.g. %s" % (len(beyond), beyond[0][:400]))
+    ctx.notes["backend_handshake"] = {"rows_exported": hres.distinct and len(rows(hres.output, "BHS")), "rows_replayed": hr["rows"],
+                                      "by_kind": hr["by_kind"], "by_expected_outcome": hr["by_outcome"],
+                                      "frames_compared": hr["frames_compared"],
+                                      "deviations_outside_C16": beyond[:20]}
     # Backoff table
     bres = ctx.tlc_must_pass("Backoff", "Backoff.cfg", workers=2, timeout=600, name="backoff")
     brows = rows(bres.output, "ROW")
